@@ -2,6 +2,7 @@ import LyModel.Valid.Spec
 import LyModel.Valid.LemmasMinMax
 import LyModel.Valid.LemmasUnique
 import LyModel.Valid.LemmasNew
+import LyModel.Valid.LemmasFamily
 /-!
 # C02 — validation accepts exactly the instances that satisfy the schema
 
@@ -21,8 +22,7 @@ theorem minmax_correct (min max : Nat) (insts : List (DNode × Nat)) (hc : max =
       if min ≠ 0 ∧ insts.length < min then .tooFew
       else if h : max ≠ 0 ∧ max < insts.length then .tooMany (insts[max]'h.2)
       else .ok := by
-  rw [minmaxCheck_eq, minmaxLoop_spec max insts 0 min (by omega) (by omega) (by omega)]
-  simp only [mmSpecFrom, Nat.zero_add, Nat.zero_le, and_true, Nat.sub_zero]
+  exact minmaxCheck_spec min max insts hc
 
 /-- non-vacuity: three instances against `min-elements 1; max-elements 2` — the third one is reported -/
 example : (match minmaxCheck 1 2 [(.term 3 {} [] [97], 0), (.term 3 {} [] [98], 1), (.term 3 {} [] [99], 2)] with
@@ -116,5 +116,71 @@ theorem cases_fresh (sibs : List DNode) (cases : List STree) (hnew : ∀ n ∈ s
     split <;> simp_all
   rw [h1, h2]
   simp
+
+/-! ## constraint families: the model's check = the constraint of the specification, on one sibling list
+
+`validate_ok_iff_valid` is covered family by family (the composition over the whole tree is evaluated on the implementation:
+law `iff` of tools/checks/c02.py, both directions, every run):
+
+| family (error kind)              | theorem                                   | RFC 7950 |
+|----------------------------------|-------------------------------------------|----------|
+| duplicates (`Dup`)               | `dup_family`, `dup_hash_eq_scan`          | §7.5, §7.6, §7.7, §7.8.2 |
+| one case per choice (`DupCase`)  | `cases_fresh`, `cases_correct`            | §7.9 |
+| min / max-elements               | `minmax_family`, `minmax_correct`         | §7.7.5, §7.7.6, §7.8.5 |
+| unique                           | `unique_hash_eq_pairwise`                 | §7.8.3 (tuple semantics: finding F60) |
+| state data under no-state        | `state_family`                            | — |
+| mandatory leaf / choice          | by definition of `schemaNodes` / `schemaChoice` (`hasInst`) | §7.6.5, §7.9.4 |
+-/
+
+/-- **duplicate family** (`lyd_validate_new` on a freshly built or parsed sibling list, every node `LYD_NEW`): no error is logged
+iff no two siblings are the same leaf or container, list entries with equal keys, or equal values of a configuration leaf-list —
+key-less lists and state leaf-lists excepted (RFC 7950 §7.8.2, §7.7). -/
+theorem dup_family (X : SchemaX) (o : VOpts) (cx : Cx) (hop : o.operational = false) (sibs : List DNode)
+    (hnew : ∀ n ∈ sibs, n.flags.new = true) :
+    (loopErrs X o cx [] sibs).errs = [] ↔ NoPair X.base sibs := by
+  have := loopErrs_nil_iff X o cx hop sibs [] hnew
+  simpa using this
+
+/-- together with `newLoop_noDflt`: the whole loop on default-free fresh siblings -/
+theorem dup_family_loop (X : SchemaX) (o : VOpts) (cx : Cx) (hop : o.operational = false) (sibs : List DNode)
+    (hnew : ∀ n ∈ sibs, n.flags.new = true) (hnd : ∀ n ∈ sibs, n.flags.dflt = false) :
+    (newLoop X o cx (sibs.length + 1) [] sibs none).2.errs = [] ↔ NoPair X.base sibs := by
+  rw [newLoop_noDflt X o cx (sibs.length + 1) sibs [] none (by omega) (by simpa using hnd)]
+  exact dup_family X o cx hop sibs hnew
+
+/-- non-vacuity: two entries of `list l { key k; }` with the same key are a forbidden pair, with different keys they are not -/
+example :
+    let S : Schema := { modName := "m", nodes := [{ depth := 0, kind := .list, name := "l", nkeys := 1 },
+      { depth := 1, kind := .leaf, name := "k", iskey := true }] }
+    (dupPair S (.inner 0 {} [] [.term 1 {} [] [49]]) (.inner 0 {} [] [.term 1 {} [] [49]]),
+     dupPair S (.inner 0 {} [] [.term 1 {} [] [49]]) (.inner 0 {} [] [.term 1 {} [] [50]])) = (true, false) := by decide
+
+/-- **min/max family**: for a list or leaf-list `k` of a compiled schema (`min-elements` ≤ `max-elements`, below 2³²), without
+`LYD_VALIDATE_OPERATIONAL`, `lyd_validate_minmax` as `lyd_validate_siblings_schema_r` calls it (UINT32_MAX for "unbounded") logs no
+error iff the number of instances is neither below `min-elements` nor above `max-elements`. -/
+theorem minmax_family (S : Schema) (o : VOpts) (cx : Cx) (sibs : List DNode) (k : STree) (hop : o.operational = false)
+    (hmm : k.info.max = 0 ∨ k.info.min ≤ k.info.max) (hmin : k.info.min ≤ uint32Max)
+    (hlen : (instsOf sibs k.sid).length ≤ uint32Max) :
+    (minmaxOut S o cx sibs k).errs = [] ↔
+      ¬ ((instsOf sibs k.sid).length < k.info.min) ∧ ¬ (k.info.max ≠ 0 ∧ k.info.max < (instsOf sibs k.sid).length) :=
+  minmaxOut_nil_iff S o cx sibs k hop hmm hmin hlen
+
+/-- **state family**: the node checks of `lyd_validate_final_r` log no error iff, under `LYD_VALIDATE_NO_STATE`, no sibling is state data -/
+theorem state_family (S : Schema) (o : VOpts) (cx : Cx) : ∀ (rest before : List DNode),
+    (nodeChecks S o cx before rest).errs = [] ↔ (o.noState = true → ∀ n ∈ rest, S.config n.sid = true) := by
+  intro rest
+  induction rest with
+  | nil => intro before; simp [nodeChecks]
+  | cons n ns ih =>
+    intro before
+    unfold nodeChecks
+    rw [Out.append_errs, List.append_eq_nil_iff, ih]
+    by_cases hns : o.noState = true
+    · by_cases hc : S.config n.sid = true
+      · simp [hns, hc]
+      · have hc' : S.config n.sid = false := by simpa using hc
+        simp [hns, hc', Out.err, Out.errs]
+    · have : o.noState = false := by simpa using hns
+      simp [this]
 
 end LyModel.Props.C02
